@@ -244,6 +244,14 @@ def c13(report):
             job["consts"]["Rewards"] = {0, 1}
     ecf.defer(jobs, either(by_clause("state.", "call.exception", ops={"warm_start"}),
                            by_clause("state.cold_arms", "state.status")))
+    # a warm-started arm owns its copy: training it afterwards leaves the arm it was copied from untouched (linear policies
+    # with and without standardisation, one independent model per arm)
+    for scale in (False, True):
+        wjobs = life_jobs(report.tier, report.seed + 4, {"fit", "partial_fit", "warm_start", "predict_expectations"},
+                          checks=("state", "locality"), depth=5, sims=report.tier == "thorough", tag="-c13own%d" % scale,
+                          over=dict(Offsets={0}, MaxChunk=2, QueryRows={3}, Quantiles={(1, 1)}),
+                          only=lambda c: c[1] is None and c[0] in ("lin-ucb", "lin-greedy", "eg"), extra=dict(lin_scale=scale))
+        ecf.defer(wjobs, by_clause("locality", "call.exception"))
     # linear policies: Lin.tla with warm_start (tie features a = b)
     ljobs = lin_jobs(report.tier, report.seed, ops={"fit", "partial_fit", "warm_start", "predict_expectations"}, checks=("state",),
                      tag="-c13", over=dict(InitArms=["a", "b", "c"], MaxDepth=4, QuerySets={((1, 1),)} ), scaled=False)
